@@ -9,8 +9,10 @@ import (
 	"fmt"
 	"math"
 	"math/rand/v2"
+	"strings"
 
 	"github.com/hneemann/parser2/funcGen"
+	"github.com/hneemann/parser2/listMap"
 	"github.com/hneemann/parser2/value"
 
 	"verif/bridge"
@@ -96,6 +98,12 @@ func c14Pool(seed int64, tier string) []c14val {
 		cl := &ref.Closure{Arity: ar, Native: func(in *ref.Interp, a []ref.Value) (ref.Value, *ref.Err) { return int64(1), nil }}
 		rc := value.Closure(funcGen.Function[value.Value]{Func: func(st funcGen.Stack[value.Value], cs []value.Value) (value.Value, error) { return value.Int(1), nil }, Args: ar, IsPure: true})
 		pool = append(pool, c14val{cl, rc, fmt.Sprintf("closure/%d", ar), "closure"})
+		if ar == 1 {
+			// containers that hold a closure: not even identical to themselves by "="
+			pool = append(pool, c14val{ref.NewList(cl), value.NewList(rc), "[closure/1]", "list"})
+			pool = append(pool, c14val{ref.NewList(int64(1), cl), value.NewList(value.Int(1), rc), "[1, closure/1]", "list"})
+			pool = append(pool, c14val{ref.MapOf("a", cl), value.NewMap(listMap.New[value.Value](1).Append("a", rc)), "{a:closure/1}", "map"})
+		}
 	}
 	return pool
 }
@@ -215,6 +223,36 @@ func (c14) Run(c *wk.Case) {
 				return
 			}
 		}
+		// order/orderRev over three or four values agree with "<": sorted if all are comparable, an error if an
+		// incomparable pair is met for certain (the model knows when), never an unjustified order
+		vals := []c14val{x, y, z}
+		if c.Rng.IntN(2) == 0 {
+			vals = append(vals, pool[c.Rng.IntN(len(pool))])
+		}
+		var rl []ref.Value
+		var ll []value.Value
+		var ds []string
+		for _, v := range vals {
+			rl, ll, ds = append(rl, v.ref), append(ll, v.real), append(ds, v.desc)
+		}
+		ident := &ref.Closure{Arity: 1, Native: func(in *ref.Interp, a []ref.Value) (ref.Value, *ref.Err) { return a[0], nil }}
+		for _, m := range []string{"order", "orderRev"} {
+			wv, we := in.CallMethod(ref.NewList(rl...), m, []ref.Value{ident})
+			if we != nil && we.Unspec {
+				c.Count("reference_unspecified", 1)
+				continue
+			}
+			got := c14Eval("a."+m+"(e->e)", value.NewList(ll...))
+			fo := bridge.Force(got.Val, got.Err)
+			if got.Panic != nil {
+				fo.Panic = got.Panic
+			}
+			if v, why := bridge.CompareOutcome(wv, we, false, fo); v == bridge.Disagree {
+				c.Violation("order-disagrees-with-less", fmt.Sprintf("[%s].%s(e->e): %s", strings.Join(ds, ", "), m, why), map[string]any{"values": ds, "method": m, "why": why})
+				return
+			}
+			c.Count("order_checks", 1)
+		}
 		if lt(x, y) == "T" && lt(y, z) == "T" {
 			c.NonTrivial(wk.Hash64("t", x.desc, y.desc, z.desc))
 		}
@@ -298,7 +336,7 @@ func (c14) Run(c *wk.Case) {
 			fail("lt-not-irreflexive", "a<a")
 			return
 		}
-		if a.kind != "closure" && rel["="] != "T" {
+		if a.kind != "closure" && !strings.Contains(a.desc, "closure") && rel["="] != "T" {
 			fail("eq-not-reflexive", fmt.Sprintf("a=a is %s", rel["="]))
 			return
 		}
